@@ -86,6 +86,9 @@ def _arr(v, interp=None):
         return A.from_nested(v)
     if isinstance(v, A.SeqVal):
         return A.from_nested(v)
+    if isinstance(v, A.Masked):
+        from .relops import masked_to_arr
+        return masked_to_arr(v)
     raise EngineError(f"array-like expected, got {type(v).__name__}")
 
 
@@ -640,6 +643,9 @@ class Lib:
             return BoundLib("str." + name, obj)
         if isinstance(obj, TokList):
             return BoundLib("toklist." + name, obj)
+        from .text import Tok
+        if isinstance(obj, Tok):
+            return BoundLib("tok." + name, obj)
         if isinstance(obj, Ref):
             if obj.kind == "list":
                 return BoundLib("list." + name, obj)
@@ -747,6 +753,14 @@ class Lib:
         if kind in ("df", "series", "groupby"):
             from .pandas_model import pandas_method
             return pandas_method(interp, kind, recv, meth, args, kwargs)
+        if kind == "tok":
+            # string predicates of a numeric / unknown token
+            if meth == "isnumeric":
+                if recv.kind == "int":
+                    return sv.cmp(">=", recv.value, 0)           # digits only (a sign is not numeric)
+                if recv.kind == "sym" and "isnumeric" in recv.value:
+                    return recv.value["isnumeric"]
+            raise EngineError(f"str.{meth} on a token of kind {recv.kind}")
         if kind == "tuple":
             if meth == "count":
                 return sum(1 for x in recv if interp.decide(interp.py_eq(x, args[0])))
@@ -868,6 +882,11 @@ class Lib:
     def list_method(self, interp, ref, meth, args, kwargs):
         c = ref.content
         if meth == "append":
+            if isinstance(c, A.SeqVal) and not sv.is_scalar(norm(args[0])) and not isinstance(args[0], A.Arr):
+                # an object / tuple appended to a symbolic-length list (arrays: element-wise merge below)
+                from .loops import AppendedSeq
+                ref.set_content(AppendedSeq(c.fn, c.length, args[0]))
+                return None
             if isinstance(c, A.SeqVal):
                 n, fn = c.length, c.fn
                 v = args[0]
@@ -892,6 +911,8 @@ class Lib:
                 return None
             ref.set_content(tuple(c) + (args[0],))
             return None
+        if isinstance(c, A.SeqVal):
+            raise EngineError(f"list.{meth} on a symbolic-length list")
         if meth == "extend":
             ref.set_content(tuple(c) + tuple(interp.iter_concrete(args[0])))
             return None
